@@ -37,12 +37,14 @@ class C05(Check):
             kinds = rng.sample(kinds, 3)
         elif r < 0.6:
             kinds = []
+        if rng.random() < 0.06:
+            return gen.profile(**gen.FOCUS["interrupted"])
         return gen.profile(
             n_tasks=(1, 4 if big else 3), p_optional=0.3, p_zero=0.12, p_variable=0.3, p_release=0.25, p_due=0.25, n_workers=(0, 3),
             p_cumulative=0.15, p_select=0.45, p_assign=0.7, p_dynamic=0.15, p_delayed=0.15, p_work=0.25, p_horizon=0.9, slack=(0, 4),
             constraints=kinds, n_constraints=(0, 3), n_buffers=(0, 1) if rng.random() < 0.25 else (0, 0),
             indicators=["ResourceUtilization", "NumberTasksAssigned", "ResourceCost", "Tardiness", "FromMathExpression"] if rng.random() < 0.2 else [],
-            n_indicators=(1, 2), indicator_constraints=0.7, p_optional_constraint=0.1,
+            n_indicators=(1, 2), indicator_constraints=0.7, p_optional_constraint=0.25,
         )
 
     def plan(self, run_seed, tier):
@@ -166,7 +168,8 @@ class C05(Check):
         gone = [ca[i] for i in ca if i not in cb]
         if len(gone) == 1 and len(a["tasks"]) == len(b["tasks"]) and len(a.get("assign", [])) == len(b.get("assign", [])):
             c = gone[0]
-            return c["kind"] + ("." + c["mode"] if c.get("mode") else "")
+            name = c["kind"] + ("." + c["mode"] if c.get("mode") else "")
+            return f"Optional({name})" if c.get("optional") else name
         if len(a["tasks"]) == len(b["tasks"]) and not gone:
             for ta, tb in zip(a["tasks"], b["tasks"]):
                 for field in ("optional", "release", "due", "work", "allowed", "max", "priority"):
